@@ -71,6 +71,8 @@ def add_stage(m, sd):
                     st.add_objective(P.OBJS[o](P.CA, r.pt, d))
                 if sd.get("own_method"):
                     st.method(P.make_method(d))
+                for ent in sd.get("extra_init", []):
+                    P.apply_init(st, r.sym, d, ent)
             m.reals.append(r)
 
 
